@@ -212,11 +212,20 @@ def gen_case(rng, tier, index):
                        "tip": rng.choice(SYMS) if rng.random() < 0.6 else _container(rng, _rand_members(rng, rng.randint(1, 4)), allow_set=False)}
     if kind == "any" and rng.random() < 0.5:
         case["omit_tip"] = True  # Tip.Any is the default: the argument is left out altogether
-    if isinstance(tip, (list, dict)) and ("__tuple__" in tip if isinstance(tip, dict) else True) and ep != "transfer" and rng.random() < 0.2:
-        # `tip` is documented as an Iterable: a generator / iterator object is legal for entry points that
-        # emit a single record (transfer would have to re-use it for every pair)
+    if isinstance(tip, (list, dict)) and ("__tuple__" in tip if isinstance(tip, dict) else True) and rng.random() < 0.2:
+        # `tip` is documented as an Iterable: a generator / iterator object is legal (a transfer has to read it once
+        # and use the selection for every record)
         case["oneshot"] = rng.choice(["iter", "gen"])
-        case["n"] = 1
+        if ep != "transfer":
+            case["n"] = 1
+        if kind == "coll" and rng.random() < 0.3:
+            # a long stream that names the same few tips over and over and another one only late
+            few = _rand_members(rng, rng.randint(1, 3))
+            k = rng.randint(17, 40)
+            members = [rng.choice(few) for _ in range(k)]
+            for _ in range(rng.randint(1, 3)):
+                members[rng.randint(16, k - 1)] = rng.choice(SYMS)
+            case["tip"] = {"__tuple__": members} if isinstance(tip, dict) else members
     return case
 
 
